@@ -535,6 +535,33 @@ fn main() {{
             ),
         ),
         (
+            "require_static RefCell field under an explicit bound".into(),
+            body(
+                "#[derive(Collect)]\n#[collect(no_drop, bound = \"\")]\nstruct H<'gc> { #[collect(require_static)] slot: RefCell<Option<C<'gc>>> }\n#[derive(Collect)]\n#[collect(no_drop)]\nstruct Root<'gc> { h: Gc<'gc, H<'gc>> }",
+                "Root { h: Gc::new(mc, H { slot: RefCell::new(None) }) }",
+                "*root.h.slot.borrow_mut() = Some(child);",
+                "root.h.slot.borrow().is_some()",
+            ),
+        ),
+        (
+            "whole-type require_static holder under an explicit bound".into(),
+            body(
+                "#[derive(Collect)]\n#[collect(require_static, bound = \"\")]\nstruct H<'gc> { slot: RefCell<Option<C<'gc>>> }\n#[derive(Collect)]\n#[collect(no_drop)]\nstruct Root<'gc> { h: Gc<'gc, H<'gc>> }",
+                "Root { h: Gc::new(mc, H { slot: RefCell::new(None) }) }",
+                "*root.h.slot.borrow_mut() = Some(child);",
+                "root.h.slot.borrow().is_some()",
+            ),
+        ),
+        (
+            "static_collect! on a RefCell holder of a pointer".into(),
+            body(
+                "struct H<'a>(RefCell<Option<C<'a>>>);\ngc_arena::static_collect!(<T> H<'gc>);\n#[derive(Collect)]\n#[collect(no_drop)]\nstruct Root<'gc> { h: Gc<'gc, H<'gc>> }",
+                "Root { h: Gc::new(mc, H(RefCell::new(None))) }",
+                "*root.h.0.borrow_mut() = Some(child);",
+                "root.h.0.borrow().is_some()",
+            ),
+        ),
+        (
             "Lock::take needs no barrier and adopts nothing".into(),
             body(
                 "#[derive(Collect)]\n#[collect(no_drop)]\nstruct Root<'gc> { c: Gc<'gc, Lock<Option<C<'gc>>>> }",
